@@ -2,6 +2,7 @@ package seq
 
 import (
 	"bytes"
+	"context"
 	"encoding/hex"
 	"fmt"
 	"sort"
@@ -52,11 +53,13 @@ type ksWorld struct {
 	missed  [2]map[string]bool       // per instance: which kinds of lookups (get miss, has miss, has hit) touched which id since the last eviction/reopen. A cache may remember any of them differently, so they are part of the state key (an abstraction that merged "missed through GetKey" with "missed through HasKey" hid a seeded negative-caching defect)
 	nfill   int
 	held    []heldKey            // key objects handed out so far: they must stay the keys they were
+	fd      *failingDS           // the datastore, able to refuse the next Put
 	expect  map[string][2]string // id -> independently computed (identity id, published key), for pre-seeded keys
 }
 
 func newKsWorld() *ksWorld {
-	w := &ksWorld{d: dssync.MutexWrap(ds.NewMapDatastore()), created: map[string][]byte{}, idents: map[string]*idp.Identity{}, derived: map[string]string{}}
+	fd := &failingDS{Datastore: dssync.MutexWrap(ds.NewMapDatastore())}
+	w := &ksWorld{d: fd, fd: fd, created: map[string][]byte{}, idents: map[string]*idp.Identity{}, derived: map[string]string{}}
 	for i := range w.ks {
 		k, err := keystore.NewKeystore(w.d)
 		if err != nil {
@@ -128,6 +131,20 @@ func (w *ksWorld) heldIntact() (string, bool) {
 	return "", true
 }
 
+// failingDS refuses the next Put when told to (a full disk, a closed store): the write error is returned to the keystore.
+type failingDS struct {
+	ds.Datastore
+	failNextPut bool
+}
+
+func (f *failingDS) Put(ctx context.Context, k ds.Key, v []byte) error {
+	if f.failNextPut {
+		f.failNextPut = false
+		return fmt.Errorf("datastore: injected write error")
+	}
+	return f.Datastore.Put(ctx, k, v)
+}
+
 func rawOf(k crypto.PrivKey) []byte {
 	b, _ := k.Raw()
 	return b
@@ -179,6 +196,18 @@ func (w *ksWorld) applyOp(p *run.Part, o ksOp, c ksCase, judge bool) bool {
 		w.created[o.ID] = rawOf(k)
 		w.touched[o.I][o.ID] = true
 		w.hold(o.ID, k)
+	case "createfail":
+		// the datastore refuses the write: no key was created, on this instance or anywhere
+		if _, ok := w.created[o.ID]; ok {
+			return false
+		}
+		w.fd.failNextPut = true
+		_, err := ks.CreateKey(ctx, o.ID)
+		w.fd.failNextPut = false
+		if err == nil {
+			viol("C20:create-succeeded-without-the-write", fmt.Sprintf("CreateKey(%s) returned a key although the datastore refused the write", o.ID))
+		}
+		w.missed[o.I]["createfail:"+o.ID] = true
 	case "get":
 		k, err := ks.GetKey(ctx, o.ID)
 		want, ok := w.created[o.ID]
@@ -360,6 +389,7 @@ func c20Run(p *run.Part, tier string) {
 	for i := 0; i < 2; i++ {
 		alpha = append(alpha, ksOp{K: "fill", I: i}, ksOp{K: "reopen", I: i})
 	}
+	alpha = append(alpha, ksOp{K: "createfail", I: 0, ID: "a"})
 	// has/get on the derived id of a are part of the alphabet too (the id an identity denotes)
 	seen := map[string]bool{newKsWorld().key(): true}
 	frontier := [][]ksOp{{}}
